@@ -37,6 +37,9 @@ type C10Case struct {
 	// Rush: the final action follows the steady-state faults at once (it lands in the restart or
 	// shutdown they started) instead of after the tree has settled
 	Rush bool `json:"rush,omitempty"`
+	// StopSpawns (nodestop only): this many processes outside the tree each spawn one more process
+	// (plain Spawn) while Node.Stop is running
+	StopSpawns int `json:"stop_spawns,omitempty"`
 }
 
 type c10 struct{}
@@ -52,7 +55,7 @@ func (c10) Nontrivial() []string {
 func (c10) Rule() string {
 	return "case = a supervision tree of depth <= 3 and <= 12 processes built from supervisors (all types and strategies), pools and leaf actors, optionally as the member of an application; " +
 		"faults: which recorded process (root, middle supervisor, leaf, pool, worker) x how (Kill, handler error, panic, normal, shutdown) x when (concurrently with start-up, steady state, back to back so that they land in an ongoing restart or shutdown), " +
-		"then a final action (none, kill the root, ApplicationStop, ApplicationStopForce, graceful Node.Stop). Every process records its pid and parent at Init. Oracle at quiescence: a process whose parent is gone is gone; " +
+		"then a final action (none, kill the root, ApplicationStop, ApplicationStopForce, graceful Node.Stop - optionally while 1-3 unrelated processes each spawn another process). Every process records its pid and parent at Init. Oracle at quiescence: a process whose parent is gone is gone; " +
 		"after a successful ApplicationStop / Node.Stop nothing recorded under it is alive and the call returned only after the last terminate; a stop call that never returns is a violation. " +
 		"Non-trivial = an owner with live dependants terminated, a fault hit the start-up, or a graceful stop completed; distinct = distinct (schedule, history) hashes."
 }
@@ -114,6 +117,9 @@ func (c10) Generate(r *simkit.Rand, tier string) any {
 		c.Final = simkit.Pick(r, "none", "appstop", "appstop", "appstopforce", "nodestop", "killroot")
 	} else {
 		c.Final = simkit.Pick(r, "none", "nodestop", "killroot", "killroot")
+	}
+	if c.Final == "nodestop" && r.Chance(0.4) {
+		c.StopSpawns = r.Range(1, 3)
 	}
 	return c
 }
@@ -403,6 +409,41 @@ func (c10) Run(e *simkit.Env, cc any) {
 		}
 	}
 
+	// processes outside the tree that will spawn while the node is being stopped
+	type lateSpawn struct {
+		pid gen.PID
+		err error
+		ret bool
+	}
+	lates := make([]*lateSpawn, c.StopSpawns)
+	var spawners []gen.PID
+	for i := range lates {
+		i := i
+		lates[i] = &lateSpawn{}
+		xh := &Hooks{Name: fmt.Sprintf("x%d", i), Env: e}
+		xh.Init = func(p *Probe, args ...any) error { record(p, "actor", fmt.Sprintf("x%d", i)); return nil }
+		xh.Terminate = func(p *Probe, reason error) { terminated(p.PID()) }
+		sh := &Hooks{Name: fmt.Sprintf("spawner%d", i), Env: e}
+		sh.Init = func(p *Probe, args ...any) error { record(p, "actor", fmt.Sprintf("spawner%d", i)); return nil }
+		sh.Message = func(p *Probe, from gen.PID, m any) error {
+			if m == "spawn" {
+				pid, err := p.Spawn(ProbeFactory(xh), gen.ProcessOptions{})
+				mu.Lock()
+				lates[i].pid, lates[i].err, lates[i].ret = pid, err, true
+				mu.Unlock()
+				e.Logf("spawner%d: Spawn during the node stop -> %v", i, err)
+			}
+			return nil
+		}
+		sh.Terminate = func(p *Probe, reason error) { terminated(p.PID()) }
+		sp, err := n.Spawn(ProbeFactory(sh), gen.ProcessOptions{})
+		if err != nil {
+			e.Infra("spawn spawner: " + err.Error())
+			return
+		}
+		spawners = append(spawners, sp)
+	}
+
 	// processes registered right before the final action
 	wasAlive := map[gen.PID]bool{}
 	mu.Lock()
@@ -444,6 +485,11 @@ func (c10) Run(e *simkit.Env, cc any) {
 		call("ApplicationStopForce", func() error { n.ApplicationStopForce("tree"); return nil })
 	case "nodestop":
 		n.SetCTRLC(false)
+		for i, sp := range spawners {
+			sp := sp
+			e.Go(fmt.Sprintf("kick-spawner%d", i), func() { n.Send(sp, "spawn") })
+			e.Probe("spawn-during-node-stop")
+		}
 		call("Node.Stop", func() error { n.Stop(); return nil })
 		stopped = true
 	case "killroot":
@@ -480,6 +526,16 @@ func (c10) Run(e *simkit.Env, cc any) {
 						e.Fail("C10/stop-returned-early", "%s reported success while %s (%s) had not terminated%s%s", c.Final, r.path, r.kind, why, tagOf())
 						return
 					}
+				}
+			}
+			for i, l := range lates {
+				mu.Lock()
+				ok := l.ret && l.err == nil
+				r := byPID[l.pid]
+				mu.Unlock()
+				if ok && r != nil && !r.term {
+					e.Fail("C10/stop-returned-early", "nodestop reported success while %s, spawned successfully by spawner%d while the node was being stopped, had not terminated", r.path, i)
+					return
 				}
 			}
 			e.Probe("graceful-stop-completed")
